@@ -19,7 +19,7 @@
    [kind_consistentb ds] = no two declarations reach the same trie node once
    as a host label and once as a path segment (F-C13e, "a.b" next to "a/b"). *)
 From Coq Require Import List ZArith NArith Bool Permutation Lia.
-From Verif Require Import Lib.UrlTree Lib.UrlTreeProofs C13.Model C13.Proofs C13.Large.
+From Verif Require Import Lib.UrlTree Lib.UrlTreeProofs C13.Model C13.Proofs C13.Large C13.Scheme.
 Import ListNotations.
 Open Scope Z_scope.
 
@@ -701,5 +701,154 @@ Example C13_large_assumed_params_leak :
       l_norm (plookup pt (u_sib 7)) = [104; 47; 123; 95; 112; 97; 114; 97; 109; 95; 49; 125] /\
       build (siblings 50) = Some pt50
   | _, _ => False
+  end.
+Proof. vm_compute. repeat split; reflexivity. Qed.
+
+(* ------------------------------------------------------------------ *)
+(* URLs that embed an absolute URL / a scheme separator after the host *)
+
+(* [url_s s] / [build_s s] / [plookup_s s] / [endpoint_remedies_s s]
+   (Scheme.v): the tree and the selection with the variant switch [s] of
+   trimURL: false = the code (no scheme handling: the host is what precedes
+   the first slash), true = the URL is cut behind the first scheme separator
+   found anywhere in it.  The statement, for every declaration list, every
+   order, every method and EVERY request URL — in particular one whose path
+   embeds another absolute URL: what is selected, and the normalised URL and
+   path parameters that are reported, belong to a declaration whose pattern
+   matches the request URL AS WRITTEN (host = what precedes its first slash). *)
+Definition C13_embedded_statement (s : bool) : Prop :=
+  forall ds pt m url, build_s s ds = Some pt -> kind_consistentb ds = true ->
+    (forall r, In r (endpoint_remedies_s s pt m url) ->
+       exists d, In d ds /\ d_method d = m /\ In r (d_rem d) /\
+                 r_enabled r = true /\ matches_kind (pat d) (split_url url) = true) /\
+    (forall g, In g (endpoint_diagnoses_s s pt m url) ->
+       exists d, In d ds /\ d_method d = m /\ In g (d_diag d) /\
+                 g_enabled g = true /\ matches_kind (pat d) (split_url url) = true) /\
+    (forall id, l_val (plookup_s s pt url) = Some id ->
+       exists d, In d ds /\ matches_kind (pat d) (split_url url) = true /\
+                 l_norm (plookup_s s pt url) = render_pattern (pat d) /\
+                 l_params (plookup_s s pt url) = params_at_nb (pat d) (split_url url) []).
+
+Theorem C13_embedded_urls : C13_embedded_statement false.
+Proof.
+  intros ds pt m url HB HK. rewrite build_s_false in HB.
+  destruct (C13_sound ds HK pt m url HB) as [HR HD].
+  split; [exact HR|]. split; [exact HD|].
+  intros id HV.
+  destruct (C13_most_specific ds pt url HB HK) as (Ha & _).
+  destruct (Ha id HV) as (d & H1 & _ & H3 & H4 & H5 & _).
+  exists d. repeat split; assumption.
+Qed.
+Print Assumptions C13_embedded_urls.
+
+(* the host decides: a selected plugin was declared on a pattern whose first
+   step, when it is a literal, is the first host label of the request as
+   written — whatever the request's path embeds *)
+Theorem C13_policy_host_is_request_host : forall ds pt m url,
+  build ds = Some pt -> kind_consistentb ds = true ->
+  (forall r, In r (endpoint_remedies pt m url) ->
+     exists d, In d ds /\ d_method d = m /\ In r (d_rem d) /\
+       forall k l p', pat d = (k, PConst l) :: p' ->
+         exists rest, split_url url = (k, l) :: rest) /\
+  (forall g, In g (endpoint_diagnoses pt m url) ->
+     exists d, In d ds /\ d_method d = m /\ In g (d_diag d) /\
+       forall k l p', pat d = (k, PConst l) :: p' ->
+         exists rest, split_url url = (k, l) :: rest).
+Proof.
+  intros ds pt m url HB HK. destruct (C13_sound ds HK pt m url HB) as [HR HD].
+  split; intros x Hx.
+  - destruct (HR x Hx) as (d & H1 & H2 & H3 & _ & H5).
+    exists d. repeat split; auto. intros k l p' E. rewrite E in H5.
+    exact (matches_kind_first_literal k l p' _ H5).
+  - destruct (HD x Hx) as (d & H1 & H2 & H3 & _ & H5).
+    exists d. repeat split; auto. intros k l p' E. rewrite E in H5.
+    exact (matches_kind_first_literal k l p' _ H5).
+Qed.
+Print Assumptions C13_policy_host_is_request_host.
+
+Definition u_archive_star : str :=      (* archive.org / wildcard *)
+  [97; 114; 99; 104; 105; 118; 101; 46; 111; 114; 103; 47; 42].
+Definition u_bank_admin : str :=        (* bank.com/admin *)
+  [98; 97; 110; 107; 46; 99; 111; 109; 47; 97; 100; 109; 105; 110].
+Definition u_bank_p : str :=            (* bank.com/{p} *)
+  [98; 97; 110; 107; 46; 99; 111; 109; 47; 123; 112; 125].
+Definition u_embedded : str :=          (* archive.org/web/http://bank.com/admin *)
+  [97; 114; 99; 104; 105; 118; 101; 46; 111; 114; 103; 47; 119; 101; 98; 47;
+   104; 116; 116; 112; 58; 47; 47; 98; 97; 110; 107; 46; 99; 111; 109; 47;
+   97; 100; 109; 105; 110].
+Definition u_embedded_seg : str :=      (* archive.org/web/://bank.com/admin *)
+  [97; 114; 99; 104; 105; 118; 101; 46; 111; 114; 103; 47; 119; 101; 98; 47;
+   58; 47; 47; 98; 97; 110; 107; 46; 99; 111; 109; 47; 97; 100; 109; 105; 110].
+Definition u_scheme_bank : str :=       (* http://bank.com/admin *)
+  [104; 116; 116; 112; 58; 47; 47; 98; 97; 110; 107; 46; 99; 111; 109; 47;
+   97; 100; 109; 105; 110].
+Definition archive_bank : list decl :=
+  [mk s_GET u_archive_star 1 1; mk s_GET u_bank_admin 2 2].
+Definition archive_bankp : list decl :=
+  [mk s_GET u_bank_p 2 2; mk s_GET u_archive_star 1 1].
+
+(* the hypotheses are satisfiable and the conclusion is what one expects: in
+   both declaration orders the request embedding the bank URL is served the
+   archive policy under the normalised URL of the archive wildcard, the bank
+   URL itself the bank policy; a URL with a LEADING scheme is, today, refused
+   as a declaration and matches no bank declaration as a request *)
+Example C13_sample_embedded :
+  kind_consistentb archive_bank = true /\
+  match build archive_bank, build (rev archive_bank), build archive_bankp with
+  | Some pt, Some pt', Some ptp =>
+      map r_name (endpoint_remedies pt s_GET u_embedded) = [1] /\
+      map r_name (endpoint_remedies pt' s_GET u_embedded) = [1] /\
+      map r_name (endpoint_remedies pt s_GET u_embedded_seg) = [1] /\
+      l_norm (plookup pt u_embedded) = u_archive_star /\
+      l_norm (plookup pt' u_embedded) = u_archive_star /\
+      map r_name (endpoint_remedies pt s_GET u_bank_admin) = [2] /\
+      endpoint_remedies pt s_POST u_embedded = [] /\
+      endpoint_remedies pt s_GET u_scheme_bank = [] /\
+      map r_name (endpoint_remedies ptp s_GET u_embedded) = [1] /\
+      l_params (plookup ptp u_embedded) = [] /\
+      build [mk s_GET u_scheme_bank 3 3] = None /\
+      build [mk s_GET u_embedded 3 3] = None
+  | _, _, _ => False
+  end.
+Proof. vm_compute. repeat split; reflexivity. Qed.
+
+(* variant "trimURL cuts behind the first scheme separator anywhere" (seeded
+   change C13-11): the remedy declared for GET bank.com/admin is selected for
+   GET archive.org/web/http://bank.com/admin, a request to another host *)
+Theorem C13_embedded_scheme_cut_refuted : ~ C13_embedded_statement true.
+Proof.
+  intro H.
+  destruct (build_s true archive_bank) as [pt|] eqn:HB;
+    [|vm_compute in HB; discriminate].
+  assert (HK : kind_consistentb archive_bank = true) by (vm_compute; reflexivity).
+  destruct (H archive_bank pt s_GET u_embedded HB HK) as (Hr & _ & _).
+  assert (Hin : In {| r_name := 2; r_type := 2; r_enabled := true |}
+                   (endpoint_remedies_s true pt s_GET u_embedded)).
+  { vm_compute in HB. inversion HB; subst pt. vm_compute. left. reflexivity. }
+  destruct (Hr _ Hin) as (d & Hd & _ & Hrem & _ & Hm).
+  destruct Hd as [<-|[<-|[]]].
+  - vm_compute in Hrem. destruct Hrem as [E|[]]. discriminate E.
+  - vm_compute in Hm. discriminate Hm.
+Qed.
+Print Assumptions C13_embedded_scheme_cut_refuted.
+
+(* what the variant does on that witness, in both declaration orders: the
+   bank policy, the normalised URL of the bank endpoint and — with a
+   parameter — the embedded URL's segment instead of the request's; the
+   archive policy that does match is not applied; URLs without a scheme
+   separator are treated as by the code *)
+Example C13_embedded_scheme_cut_leak :
+  match build_s true archive_bank, build_s true (rev archive_bank),
+        build_s true archive_bankp, build archive_bank with
+  | Some pt, Some pt', Some ptp, Some pt0 =>
+      map r_name (endpoint_remedies_s true pt s_GET u_embedded) = [2] /\
+      map r_name (endpoint_remedies_s true pt' s_GET u_embedded) = [2] /\
+      map r_name (endpoint_remedies_s true pt s_GET u_embedded_seg) = [2] /\
+      l_norm (plookup_s true pt u_embedded) = u_bank_admin /\
+      l_norm (plookup_s true ptp u_embedded) = u_bank_p /\
+      l_params (plookup_s true ptp u_embedded) = [([112], [97; 100; 109; 105; 110])] /\
+      pt = pt0 /\
+      map r_name (endpoint_remedies_s true pt s_GET u_bank_admin) = [2]
+  | _, _, _, _ => False
   end.
 Proof. vm_compute. repeat split; reflexivity. Qed.
